@@ -390,3 +390,8 @@ fn construct_size_too_large_error(
     )
     .attach_context("size", size.to_string())
 }
+
+// verification hook (guard: cfg(kani), set only by the Kani compiler): harnesses live in /verif/kani
+#[cfg(kani)]
+#[path = "/verif/kani/config.rs"]
+mod verif_kani;
